@@ -58,10 +58,11 @@ type mserver struct {
 	lastRate int
 	bad      string
 	done     bool // Next has returned false: the answers to later queries are ignored by the iterator
+	skip     bool // runs with count probes (limit 1, all offsets zero) in between: fields not judged
 }
 
 func (m *mserver) checkExtra(offsetID int, x extra) {
-	if m.done {
+	if m.done || m.skip {
 		return
 	}
 	fail := func(f string, a ...interface{}) {
@@ -214,6 +215,97 @@ func runM(c mcase, viaRPC bool) mobs {
 	}
 	o.BadExtra = srv.bad
 	return o
+}
+
+// tcall: call Total (Kind 0) or FetchTotal (Kind 1) before the Next call number Pos (0-based); a position
+// beyond the number of Next calls made means "after Next returned false".
+type tcall struct {
+	Pos  int `json:"pos"`
+	Kind int `json:"kind"`
+}
+
+type mtobs struct {
+	mobs
+	Counts []int64
+}
+
+// runMT iterates with Total/FetchTotal calls interleaved (QueryFunc path).
+func runMT(c mcase, calls []tcall) (o mtobs) {
+	var queries []int64
+	srv := &mserver{skip: true}
+	q := messages.QueryFunc(func(ctx context.Context, req messages.Request) (tg.MessagesMessagesClass, error) {
+		return serveMessages(c, req.OffsetID, req.Limit, &queries, srv, extra{}), nil
+	})
+	it := messages.NewIterator(q, c.Limit)
+	ctx := context.Background()
+	do := func(sel func(pos int) bool) {
+		for _, tc := range calls {
+			if !sel(tc.Pos) {
+				continue
+			}
+			var n int
+			var err error
+			if tc.Kind == 0 {
+				n, err = it.Total(ctx)
+			} else {
+				n, err = it.FetchTotal(ctx)
+			}
+			if err != nil && o.Err == "" {
+				o.Err = err.Error()
+			}
+			o.Counts = append(o.Counts, int64(n))
+		}
+	}
+	p, v := hx.Recover(func() {
+		n := 0
+		for i := 0; i < c.Fuel; i++ {
+			do(func(pos int) bool { return pos == n })
+			if !it.Next(ctx) {
+				o.Finished = true
+				do(func(pos int) bool { return pos > n })
+				break
+			}
+			o.Yielded = append(o.Yielded, int64(it.Value().Msg.GetID()))
+			n++
+		}
+		if !o.Finished {
+			do(func(pos int) bool { return pos == n })
+		}
+		o.Queries = append([]int64(nil), queries...)
+		if err := it.Err(); err != nil && o.Err == "" {
+			o.Err = err.Error()
+		}
+	})
+	if p {
+		o.Err = fmt.Sprint("panic: ", v)
+	}
+	return o
+}
+
+// collectM uses the generated Collect() and Count() of the GetHistory builder (both call Total first).
+func collectM(c mcase) (ids []int64, count int, err string) {
+	var queries []int64
+	srv := &mserver{skip: true}
+	raw := tg.NewClient(mInvoker{c, &queries, srv})
+	b := messages.NewQueryBuilder(raw).GetHistory(&tg.InputPeerUser{UserID: 10, AccessHash: 7}).BatchSize(c.Limit)
+	p, v := hx.Recover(func() {
+		n, e := b.Count(context.Background())
+		if e != nil {
+			err = e.Error()
+		}
+		count = n
+		elems, e := b.Collect(context.Background())
+		if e != nil {
+			err = e.Error()
+		}
+		for _, el := range elems {
+			ids = append(ids, int64(el.Msg.GetID()))
+		}
+	})
+	if p {
+		err = fmt.Sprint("panic: ", v)
+	}
+	return ids, count, err
 }
 
 // ---------- dialogs ----------
@@ -436,6 +528,42 @@ func main() {
 			}
 		}
 	}
+	oneMT := func(src string, mc mcase, calls []tcall) {
+		mc.Kind = "mt"
+		if mc.Fuel == 0 {
+			mc.Fuel = 3*len(mc.H) + 8
+		}
+		c.Obs.Evaluations++
+		c.Count(fmt.Sprintf("messages-with-totals:%s:pol=%d", src, mc.Pol))
+		o := runMT(mc, calls)
+		cs := make([]string, len(calls))
+		for i, tc := range calls {
+			cs[i] = hx.Tuple(hx.Z(int64(tc.Pos)), hx.Z(int64(tc.Kind)))
+		}
+		js := map[string]interface{}{"case": mc, "calls": calls, "observed": o}
+		sh, ix := c.Case(fmt.Sprintf("CMT %s %d %d %s %d %s %s %s %s %s", hx.ZList(mc.H), mc.Limit, mc.Pol, hx.Z(mc.Cnt), mc.Fuel, hx.List(cs),
+			hx.ZList(o.Yielded), hx.ZList(o.Queries), hx.ZList(o.Counts), hx.B(o.Finished)), js)
+		if len(mc.H) > mc.Limit {
+			c.Nontrivial(fmt.Sprint(mc, calls))
+		}
+		replay := map[string]interface{}{"kind": "mt", "case": mc, "calls": calls}
+		if o.Err != "" {
+			c.Violate("messages-error", fmt.Sprintf("messages iterator with Total/FetchTotal calls %v failed on %+v: %s", calls, mc, o.Err), sh, ix, replay)
+			return
+		}
+		if !o.Finished || !eq64(o.Yielded, mc.H) {
+			c.Violate("messages-total-call-disturbs-iteration", fmt.Sprintf("messages iterator over %v limit %d pol %d with Total/FetchTotal calls %v yielded %v (finished=%v)", mc.H, mc.Limit, mc.Pol, calls, o.Yielded, o.Finished), sh, ix, replay)
+			return
+		}
+		// Collect()/Count() of the generated builder
+		ids, cnt, cerr := collectM(mc)
+		if cerr != "" || !eq64(ids, mc.H) {
+			c.Violate("messages-total-call-disturbs-iteration", fmt.Sprintf("GetHistory(...).Collect() over %v limit %d pol %d returned %v (%s)", mc.H, mc.Limit, mc.Pol, ids, cerr), sh, ix, replay)
+		}
+		if (mc.Pol == 0 || mc.Pol == 1) && int64(cnt) != mc.Cnt {
+			c.Violate("messages-wrong-total", fmt.Sprintf("Count() over %v pol %d returned %d, the server says %d", mc.H, mc.Pol, cnt, mc.Cnt), sh, ix, replay)
+		}
+	}
 	oneD := func(src string, dc dcase) {
 		dc.Kind = "d"
 		if dc.Fuel == 0 {
@@ -489,7 +617,15 @@ func main() {
 		Kind string `json:"kind"`
 	}
 	if c.LoadReplay(&rp) {
-		if rp.Kind == "d" {
+		if rp.Kind == "mt" {
+			var w struct {
+				Case  mcase   `json:"case"`
+				Calls []tcall `json:"calls"`
+			}
+			c.LoadReplay(&w)
+			fmt.Printf("replay messages with totals %+v calls %v\n  observed: %+v\n", w.Case, w.Calls, runMT(w.Case, w.Calls))
+			oneMT("replay", w.Case, w.Calls)
+		} else if rp.Kind == "d" {
 			var dc dcase
 			c.LoadReplay(&dc)
 			fmt.Printf("replay dialogs %+v\n  QueryFunc: %+v\n  builder:   %+v\n", dc, runD(dc, false), runD(dc, true))
@@ -535,6 +671,22 @@ func main() {
 				}
 				if pol == 0 || pol == 2 {
 					oneM("reversed-page", mcase{H: h, Limit: l, Pol: pol, Cnt: int64(n), Rev: true})
+				}
+			}
+		}
+	}
+
+	// Total / FetchTotal / Collect interleaved with the iteration: before the first Next, in the middle, after the end
+	for n := 0; n <= c.N(8, 14); n++ {
+		for _, l := range []int{1, 2, 3, 5} {
+			for pol := 0; pol <= 3; pol++ {
+				h := hist(n)
+				mid := 1 + c.Rng.Intn(n+1)
+				for _, calls := range [][]tcall{
+					{{0, 0}}, {{0, 1}}, {{mid, 1}}, {{0, 0}, {mid, 0}}, {{1000, 1}}, {{0, 1}, {mid, 1}, {1000, 0}},
+					{{c.Rng.Intn(n + 2), c.Rng.Intn(2)}, {c.Rng.Intn(n + 2), c.Rng.Intn(2)}},
+				} {
+					oneMT("totals", mcase{H: h, Limit: l, Pol: pol, Cnt: int64(n)}, calls)
 				}
 			}
 		}
@@ -591,6 +743,6 @@ func main() {
 		r := c.Rng.Fork()
 		oneD("random-missing", dcase{H: dhist(n, c.Rng.Intn(3), func(int) bool { return r.Chance(3, 4) }), Limit: c.Rng.Range(1, n+1), Pol: c.Rng.Intn(2), Cnt: int64(n), EmptyMsg: c.Rng.Bool()})
 	}
-	c.Obs.Rule = fmt.Sprintf("messages: every (size 0..%d, limit 1..%d, response policy 0..4) with honest, zero and inflated counts and reversed pages; dialogs: every (size, limit, policy 0..2, tie pattern) with all top messages, plus every single missing top message for sizes 1..6 and random masks; each case through QueryFunc and through the GetHistory/GetDialogs builders; non-trivial = distinct case whose history is longer than one page", maxN, maxL)
+	c.Obs.Rule = fmt.Sprintf("messages: every (size 0..%d, limit 1..%d, response policy 0..4) with honest, zero and inflated counts and reversed pages; dialogs: every (size, limit, policy 0..2, tie pattern) with all top messages, plus every single missing top message for sizes 1..6 and random masks; each case through QueryFunc and through the GetHistory/GetDialogs builders; messages also with Total()/FetchTotal() calls before / in the middle of / after the iteration and through the generated Collect()/Count(); non-trivial = distinct case whose history is longer than one page", maxN, maxL)
 	c.Finish()
 }
